@@ -34,7 +34,17 @@ pub fn analyze_order(egraph: &EGraph, enode: &Expr) -> OrderKey {
         Order([keys, _]) | TopN([_, _, keys, _]) => x(keys).clone(),
         // plans that preserve order
         Proj([_, c]) | Filter([_, c]) | Window([_, c]) | Limit([_, _, c]) => x(c).clone(),
-        MergeJoin([_, _, _, _, _, r]) => x(r).clone(),
+        // a merge join emits rows in key order of the side whose keys are never NULL-padded
+        MergeJoin([t, _, _, _, l, r]) => {
+            let is = |ty: Expr| egraph[*t].nodes.contains(&ty);
+            if is(Inner) || is(RightOuter) {
+                x(r).clone()
+            } else if is(LeftOuter) {
+                x(l).clone()
+            } else {
+                Box::new([])
+            }
+        }
         SortAgg([_, _, c]) => x(c).clone(),
         // unordered for other plans
         _ => Box::new([]),
